@@ -54,6 +54,11 @@ def gen_aranges(r):
         for a, ln in tuples:
             out += a.to_bytes(asz, bo) + ln.to_bytes(asz, bo)
         out += bytes(t)
+        # unit_length may cover bytes after the terminating tuple (padding: more empty tuples, or anything at all);
+        # the next set starts where unit_length says, not where the terminator ended
+        extra = r.choice([0, 0, 0, 1, 2, 3])
+        if extra:
+            out += bytes(t * extra) if r.random() < 0.5 else bytes(r.getrandbits(8) for _ in range(t * extra))
         ul = len(out) - start - 4
         out[start:start + 4] = ul.to_bytes(4, bo)
         for a, ln in tuples:
